@@ -193,7 +193,11 @@ class DefaultPredictionStrategy(object):
         prefix = string.ascii_lowercase[: max(fant_train_covar.dim() - self.mean_cache.dim() - 1, 0)]
         ftcm = torch.einsum(prefix + "...yz,...z->" + prefix + "...y", [fant_train_covar, self.mean_cache])
 
-        small_system_rhs = targets - fant_mean - ftcm
+        if isinstance(full_output, MultitaskMultivariateNormal):
+            # flatten (m x t) targets and means like the (m * t) rows of the fantasy covariance
+            small_system_rhs = (targets - fant_mean).reshape(*target_batch_shape, -1) - ftcm
+        else:
+            small_system_rhs = targets - fant_mean - ftcm
         small_system_rhs = small_system_rhs.unsqueeze(-1)
         # Schur complement of a spd matrix is guaranteed to be positive definite
         schur_cholesky = psd_safe_cholesky(schur_complement)
